@@ -74,7 +74,13 @@ where
         self.sec_param
     }
 
-    fn compute_dimensions(&self, _n: usize) -> (usize, usize) {
+    fn compute_dimensions(&self, n: usize) -> (usize, usize) {
+        // The matrix dimensions are fixed at setup for one number of variables
+        assert_eq!(
+            n,
+            self.n * self.m,
+            "The polynomial does not have the number of variables the parameters were set up for"
+        );
         (self.n, self.m)
     }
 
